@@ -9,6 +9,8 @@ CONSTANTS
   UncOffs = {0, 1, 2, 3, 4, 5, 6, 7, 8}
   UncPrecs = {1, 2, 3, 4}
   Units = {}
+  Convs = {}
+  UncSrcs = {"arg"}
   RomanMax = 0
 INVARIANT TypeOK
 INVARIANT RoundCarries
